@@ -123,13 +123,13 @@ SPECIFIC = {
     "C01": ["legality", "shapes", "downgrade"],
     "C07": ["downgrade"],
     "C20": ["replies"],
-    "C04": ["vectors", "inbound"],
+    "C04": ["vectors", "inbound", "limitsim"],
     "C08": ["vectors", "readersim"],
     "C09": ["shapes", "legality", "downgrade", "arenasim"],
     "C19": ["legality", "downgrade"],
     "C11": ["vectors"],
-    "C12": ["readersim"],
-    "C14": ["vectors", "readersim", "maxima"],
+    "C12": ["readersim", "limitsim"],
+    "C14": ["vectors", "readersim", "maxima", "limitsim"],
     "C10": ["timesim"],
     "C13": ["twins-cancel", "twins-fragcancel"],
     "C15": ["twins-fragment", "twins-stall", "twins-fragcancel", "readersim"],
@@ -304,6 +304,20 @@ def gen_arenasim(tier, seed, outdir, mqv, root):
     json.dump({"tool_errors": [], "drift": drift, "samples": samples}, open(os.path.join(outdir, "meta.json"), "w"))
 
 
+LIMITSIM = {"quick": (250, 40), "thorough": (6000, 60)}
+
+
+def gen_limitsim(tier, seed, outdir, mqv, root):
+    import replay_limits
+    num, depth = LIMITSIM[tier]
+    trace, bad, n, steps = replay_limits.run(seed, num, depth, outdir, mqv)
+    drift = [{"cfg": "Limits", "behaviour": i, "mismatch": mm[:2]} for i, mm in bad[:20]]
+    json.dump({"tool_errors": [], "drift": drift,
+               "samples": [{"group": "limitsim", "behaviours": n, "steps_replayed": steps, "nonconformant": len(bad),
+                            "lengths": replay_limits.LENS, "limits": replay_limits.MAXES}]},
+              open(os.path.join(outdir, "meta.json"), "w"))
+
+
 AGED_CFGS = [{"rx": 128, "tx": tx, "client_id": b("ag%d" % tx), "ka": 0, "sei": 300} for tx in (96, 160, 256, 320, 1152)]
 # (history profile, overrides, pairs quick, pairs thorough)
 # "keep": the capacity program runs on the connection the history ended on (if alive), so the history's
@@ -360,7 +374,7 @@ def gen_twins(kind):
     return gen
 
 
-GENERATORS = {"replies": gen_program("replies"), "downgrade": gen_program("downgrade"), "inbound": gen_program("inbound"), "legality": gen_program("legality"), "shapes": gen_program("shapes"), "maxima": gen_program("maxima"),
+GENERATORS = {"limitsim": gen_limitsim, "replies": gen_program("replies"), "downgrade": gen_program("downgrade"), "inbound": gen_program("inbound"), "legality": gen_program("legality"), "shapes": gen_program("shapes"), "maxima": gen_program("maxima"),
               "twins-aged": gen_aged, "arenasim": gen_arenasim, "readersim": gen_readersim, "timesim": gen_timesim, "vectors": gen_vectors, "twins-stall": gen_twins("stall"), "twins-fragcancel": gen_twins("fragcancel"), "twins-cancel": gen_twins("cancel"), "twins-fragment": gen_twins("fragment"), "common": gen_common, "witness": gen_witness, "cover": gen_cover, "sim": gen_sim}
 
 
